@@ -1,6 +1,6 @@
 //go:build verif
 
-//verif:aux x509 for=ctutil
+//verif:aux x509 for=ctutil,client,.
 
 package x509
 
